@@ -44,7 +44,7 @@ class Gen:
     def value(self, ind, depth, kind=None):
         """Return the text of a value starting at column `ind` (first line not indented)."""
         kinds = ["scalar", "ilist", "mlist", "mset", "call", "with", "istr", "if", "iset", "eset", "elist", "recset", "assert",
-                 "letv", "paren"]
+                 "letv", "paren", "clist", "cset", "mlist_nested"]
         if depth >= self.max_depth:
             kinds = ["scalar", "ilist", "with", "iset", "eset", "elist"]
         k = kind or self.r.choice(kinds)
@@ -56,6 +56,14 @@ class Gen:
             return "[ ]"
         if k == "eset":
             return "{ }"
+        # containers that hold nothing but comments, and a container as an element of a multi-line list (own-line position)
+        if k == "clist":
+            return "[\n" + sp(ind + 2) + "# nothing yet\n" + sp(ind) + "]"
+        if k == "cset":
+            return "{\n" + sp(ind + 2) + "# nothing yet\n" + sp(ind) + "}"
+        if k == "mlist_nested":
+            inner = self.value(ind + 2, self.max_depth, self.r.choice(["clist", "cset", "ilist", "elist", "iset"]))
+            return "[\n" + sp(ind + 2) + "first\n" + sp(ind + 2) + inner + "\n" + sp(ind) + "]"
         if k == "iset":
             return "{ " + self.r.choice(["a = 1;", 'x = "y";', "inherit z;"]) + " }"
         if k == "mlist":
@@ -162,13 +170,20 @@ def files(tier, seed):
     seen = set()
     # systematic: every value kind as the single binding of a set, at nesting 1..3
     g = Gen(random.Random(1), 3)
-    for kind in ["scalar", "ilist", "mlist", "mset", "call", "with", "istr", "if", "iset", "eset", "elist", "recset", "assert", "letv", "paren"]:
+    for kind in ["scalar", "ilist", "mlist", "mset", "call", "with", "istr", "if", "iset", "eset", "elist", "recset", "assert", "letv", "paren",
+                 "clist", "cset", "mlist_nested"]:
         for rep in range(4):
             v = g.value(2, 1, kind)
             for wrap in ("{\n  a = %s;\n}\n", "{\n  a = {\n    b = %s;\n  };\n}\n"):
                 ind = 2 if wrap.count("{") == 1 else 4
                 v2 = Gen(random.Random(rep * 31 + zlib.crc32(kind.encode()) % 1000), 3).value(ind, 1, kind)
                 out.append((wrap % v2).replace("= \n", "=\n"))
+    # comment-only containers as the whole file and as the body of with / let / a function
+    for c in ("[\n  # nothing yet\n]", "{\n  # nothing yet\n}"):
+        out.append(c + "\n")
+        out.append("with lib;\n" + c + "\n")
+        out.append("let\n  a = 1;\nin\n" + c + "\n")
+        out.append("{ pkgs }:\n" + c + "\n")
     for bk in ["plain", "quoted", "attrpath", "inherit", "inherit_from"]:
         for rep in range(6):
             g2 = Gen(random.Random(rep * 7 + len(bk)), 3)
